@@ -11,7 +11,8 @@ LEVEL_TEXT = ('Every obligation generated from the current source of Heap.Swap/F
               'and has the fewest outstanding requests among up-marked members.')
 LEVEL_NOTE = ('Trusted: the pyvc encoding of python (DESIGN 2.4), z3/cvc5, assumed contracts of externs (random.randint, channel Close/AsyncProcessRequest, channel factory), '
               'the assumed contract of _OpenNode (listed in the evidence; _FindNodeByEndpoint is proved). SCOPE: the hooks _OnGet/_OnPut/_OnNodeDown are taken by a behavioural contract weak enough for both balancers (heap invariant kept; outstanding counts, loads, endpoints, channels and the down list of existing nodes untouched; '
-              'no member that holds requests is closed; members may be added or retired). HeapBalancerSink\'s own hooks are verified against it; the ApertureBalancerSink overrides are NOT yet (C06), so for the aperture balancer the result is conditional on them. '
+              'no up-marked member that holds requests is closed; members may be added or retired). HeapBalancerSink\'s own hooks are verified against it here; the ApertureBalancerSink overrides are verified against the same clause list by the C06 check '
+              '(which also re-verifies __Get/__Put/_AsyncProcessRequestImpl under the aperture invariant), so the result holds for both balancers. '
               'Not proved: termination of __Get; that every down-marked member is on the down list (completeness of the resurrection scan); fewer than 2^31-3 outstanding requests per member is assumed.')
 ASSUMPTIONS = [
   'loads are python ints (exact arithmetic)',
